@@ -62,6 +62,9 @@ package status
 //vc:  ensures[C13] @approveRecorded !failed ==> InvApprove(statusFile[device], hasOK[device], tOK[device], pOK[device])
 //vc:  ensures[C13] @failedApproveNoEarlierOK failed && !old(hasOK[device]) ==> InvApprove(statusFile[device], hasOK[device], tOK[device], pOK[device])
 //vc:  ensures[C13] @failedApproveKeepsEarlierOK failed && old(hasOK[device]) ==> InvApprove(statusFile[device], hasOK[device], tOK[device], pOK[device])
+// independent of the known finding above: a record that says OK always carries
+// the policy and time of the successful approve it stands for (never re-dated)
+//vc:  ensures[C13] @okRecordNeverRedated statusFile[device].Approve.Result == "OK" ==> hasOK[device] && statusFile[device].Approve.Policy == pOK[device] && statusFile[device].Approve.Time == tOK[device]
 //vc:  ensures[C13] @compareSlotKept InvCompare(statusFile[device], hasOK[device], tOK[device], hasCmp[device], tCmp[device], pCmp[device], chg[device])
 //vc:  ensures[C13] @timesOrdered InvTimes(statusFile[device], hasOK[device], tOK[device], hasCmp[device], tCmp[device], now)
 //vc:  ensures[C13] @otherDevicesUntouched forall d string :: d != device ==> statusFile[d] == old(statusFile[d])
